@@ -20,6 +20,8 @@ type c6Gen struct {
 	Mode   string `json:"mode"`
 	Alias  bool   `json:"alias,omitempty"`
 	Defers int    `json:"defers,omitempty"` // callbacks registered per GenerateType call
+	Nested bool   `json:"nested,omitempty"` // the first callback registers further callbacks from inside
+	Peek   bool   `json:"peek,omitempty"`   // asks Context.Doc about the types of imported packages before rendering
 }
 
 type c6Case struct {
@@ -40,6 +42,8 @@ func genC06(t *rapid.T) c6Case {
 	c := c6Case{ModCase: genMod(t, o)}
 	for _, n := range names {
 		g := c6Gen{Name: n, Mode: "fixed", Alias: rapid.Bool().Draw(t, "alias"), Defers: rapid.IntRange(0, 2).Draw(t, "defers")}
+		g.Nested = g.Defers > 0 && rapid.IntRange(0, 2).Draw(t, "nesteddefer") == 0
+		g.Peek = rapid.IntRange(0, 2).Draw(t, "peek") == 0
 		if rapid.IntRange(0, 2).Draw(t, "mode") == 0 {
 			g.Mode = "new"
 		}
@@ -103,8 +107,19 @@ func (c *c6Case) scripts() []*script.Script {
 	for _, g := range c.Gens {
 		s := &script.Script{Name: g.Name, Mode: g.Mode, Alias: g.Alias}
 		s.Default = script.Action{Render: []script.Piece{{Kind: "block", Text: "\nvar _$G_$T = 0\n"}}}
+		if g.Peek {
+			s.Default.Render = append([]script.Piece{{Kind: "docforeign"}}, s.Default.Render...)
+		}
 		for i := 0; i < g.Defers; i++ {
-			s.Default.Defers = append(s.Default.Defers, script.DeferAction{Render: []script.Piece{{Kind: "block", Text: fmt.Sprintf("\nvar _$G_$T_defer%d = 0\n", i)}}})
+			d := script.DeferAction{Render: []script.Piece{{Kind: "block", Text: fmt.Sprintf("\nvar _$G_$T_defer%d = 0\n", i)}}}
+			if g.Nested && i == 0 {
+				// the first callback registers two more while it runs, the second of which registers a third level
+				d.Then = []script.DeferAction{
+					{Render: []script.Piece{{Kind: "block", Text: "\nvar _$G_$T_nested_a = 0\n"}}},
+					{Render: []script.Piece{{Kind: "block", Text: "\nvar _$G_$T_nested_b = 0\n"}}, Then: []script.DeferAction{{Render: []script.Piece{{Kind: "block", Text: "\nvar _$G_$T_nested_c = 0\n"}}}}},
+				}
+			}
+			s.Default.Defers = append(s.Default.Defers, d)
 		}
 		out = append(out, s)
 	}
@@ -133,6 +148,8 @@ func oracleC06(c c6Case) error {
 	lastType := map[[2]string]int{}   // (gen,pkg) -> seq of the last type/alias call
 	registered := map[[2]string]int{} // (gen,pkg) -> number of callbacks registered
 	deferCount := map[string]int{}
+	registeredIDs := map[int]string{}
+	ranIDs := map[int]int{}
 	gensByName := map[string]c6Gen{}
 	for _, g := range c.Gens {
 		gensByName[g.Name] = g
@@ -152,9 +169,12 @@ func oracleC06(c c6Case) error {
 			}
 			got[callKey{call.Gen, call.Pkg, call.Type, call.Kind}]++
 			lastType[gp] = call.Seq
-			registered[gp] += gensByName[call.Gen].Defers
+		case "register":
+			registered[gp]++
+			registeredIDs[call.DeferIdx] = fmt.Sprintf("%s|%s|%s", call.Gen, call.Pkg, call.Type)
 		case "defer":
 			deferCount[fmt.Sprintf("%s|%s|%s|%d", call.Gen, call.Pkg, call.Type, call.DeferIdx)]++
+			ranIDs[call.DeferIdx]++
 			if !call.FileUnchanged {
 				return fmt.Errorf("Defer callback of %s in %s ran after the output file had been written", call.Gen, call.Pkg)
 			}
@@ -189,7 +209,12 @@ func oracleC06(c c6Case) error {
 	}
 	for gp, n := range registered {
 		if ran[gp] != n {
-			return fmt.Errorf("generator %s in %s registered %d Defer callbacks, %d ran", gp[0], gp[1], n, ran[gp])
+			return fmt.Errorf("generator %s in %s registered %d Defer callbacks (nested registrations included), %d ran", gp[0], gp[1], n, ran[gp])
+		}
+	}
+	for id, who := range registeredIDs {
+		if ranIDs[id] != 1 {
+			return fmt.Errorf("Defer callback #%d (%s) ran %d times", id, who, ranIDs[id])
 		}
 	}
 	return nil
@@ -198,7 +223,7 @@ func oracleC06(c c6Case) error {
 func summarize(calls []script.Call) string {
 	var parts []string
 	for _, c := range calls {
-		if c.Kind == "new" {
+		if c.Kind == "new" || c.Kind == "register" {
 			continue
 		}
 		parts = append(parts, fmt.Sprintf("%s:%s(%s)", c.Gen, c.Kind, c.Type))
